@@ -19,6 +19,7 @@ import (
 	"seata.apache.org/seata-go/pkg/protocol/branch"
 	"seata.apache.org/seata-go/pkg/protocol/message"
 	"seata.apache.org/seata-go/pkg/remoting/loadbalance"
+	"seata.apache.org/seata-go/pkg/remoting/rpc"
 	"seata.apache.org/seata-go/pkg/rm/tcc"
 	"seata.apache.org/seata-go/pkg/tm"
 
@@ -47,7 +48,8 @@ func (s *lbSession) RemoteAddr() string { return s.addr }
 func (s *lbSession) Close()             { atomic.StoreInt32(&s.closed, 1) }
 func (s *lbSession) Stat() string       { return fmt.Sprintf("lb%d[%s]", s.id, s.addr) }
 
-var addrs = []string{"10.0.0.1:8091", "10.0.0.2:8091", "10.0.0.1:8092", "10.0.0.3:9000"}
+// (one address is a string prefix of another: 10.0.0.1:80 / 10.0.0.1:8091)
+var addrs = []string{"10.0.0.1:8091", "10.0.0.2:8091", "10.0.0.1:8092", "10.0.0.3:9000", "10.0.0.1:80"}
 var policies = []string{"RandomLoadBalance", "XID", "RoundRobinLoadBalance", "ConsistentHashLoadBalance", "LeastActiveLoadBalance", "NoSuchPolicy"}
 
 type Action struct {
@@ -72,6 +74,12 @@ func runSelection(c Case) *pt.Failure {
 	m := &sync.Map{}
 	var all []*lbSession
 	inMap := map[*lbSession]bool{}
+	var busy []string
+	defer func() {
+		for _, a := range busy {
+			rpc.EndCount(a)
+		}
+	}()
 	for step, a := range c.Actions {
 		switch a.Kind {
 		case "open":
@@ -90,6 +98,10 @@ func runSelection(c Case) *pt.Failure {
 				m.Delete(getty.Session(s))
 				delete(inMap, s)
 			}
+		case "busy":
+			// requests in flight on an address (what the least-active policy looks at)
+			rpc.BeginCount(addrs[a.Addr%len(addrs)])
+			busy = append(busy, addrs[a.Addr%len(addrs)])
 		case "select":
 			xid := a.Xid
 			if strings.HasPrefix(xid, "@") {
@@ -162,16 +174,18 @@ func drawActions(t *rapid.T) []Action {
 	n := rapid.IntRange(1, 24).Draw(t, "n")
 	var as []Action
 	for i := 0; i < n; i++ {
-		switch rapid.SampledFrom([]string{"open", "open", "close", "remove", "select", "select", "select"}).Draw(t, "kind") {
+		switch rapid.SampledFrom([]string{"open", "open", "close", "remove", "select", "select", "select", "busy"}).Draw(t, "kind") {
+		case "busy":
+			as = append(as, Action{Kind: "busy", Addr: rapid.IntRange(0, 4).Draw(t, "addr")})
 		case "open":
-			as = append(as, Action{Kind: "open", Addr: rapid.IntRange(0, 3).Draw(t, "addr")})
+			as = append(as, Action{Kind: "open", Addr: rapid.IntRange(0, 4).Draw(t, "addr")})
 		case "close":
 			as = append(as, Action{Kind: "close", Idx: rapid.IntRange(0, 7).Draw(t, "idx")})
 		case "remove":
 			as = append(as, Action{Kind: "remove", Idx: rapid.IntRange(0, 7).Draw(t, "idx")})
 		default:
 			xid := rapid.OneOf(
-				rapid.Map(rapid.IntRange(0, 3999), func(k int) string { return fmt.Sprintf("@%d:%d", k%4, 1+k) }),
+				rapid.Map(rapid.IntRange(0, 4999), func(k int) string { return fmt.Sprintf("@%d:%d", k%5, 1+k) }),
 				rapid.SampledFrom([]string{"", "abc", "a:b", "a:b:c:d", "10.9.9.9:1:5", "::", "10.0.0.1:8091"}),
 			).Draw(t, "xid")
 			as = append(as, Action{Kind: "select", Policy: rapid.SampledFrom([]int{0, 1, 2, 3, 3, 3, 3, 4, 5}).Draw(t, "policy"), Xid: xid}) // (3 = the only policy with state between calls)
